@@ -260,6 +260,29 @@ NEUTRAL = [
     }
 
     fn process_pending_commits(""")]),
+    dict(id="N26-varint-readers-test-the-byte-instead-of-the-bit", file="crates/serialize/src/postcard.rs",
+         edits=[("""            result |= u16::from(byte & 0x7F) << shift;
+
+            if byte & 0x80 == 0 {""", """            result |= u16::from(byte & 0x7F) << shift;
+
+            if byte < 0x80 {"""),
+                ("""            result |= u32::from(byte & 0x7F) << shift;
+
+            if byte & 0x80 == 0 {""", """            result |= u32::from(byte & 0x7F) << shift;
+
+            if byte < 0x80 {"""),
+                ("""            result |= u64::from(byte & 0x7F) << shift;
+
+            if byte & 0x80 == 0 {""", """            result |= u64::from(byte & 0x7F) << shift;
+
+            if byte < 0x80 {"""),
+                ("""            result |= u128::from(byte & 0x7F) << shift;
+
+            if byte & 0x80 == 0 {""", """            result |= u128::from(byte & 0x7F) << shift;
+
+            if byte < 0x80 {""")]),
+    dict(id="N27-spilled-half-drained-by-while-let", file="crates/storage/src/key_of_set_map/cache.rs",
+         edits=[("""                for item in spilled.half_constructed.by_ref() {""", """                while let Some(item) = spilled.half_constructed.next() {""")]),
 ]
 
 
